@@ -12,7 +12,16 @@ through the including lib (writes seen on both sides).  An icontract
 postcondition on Parser.include monitors the sharing of the model objects.
 Wrong / unusable aggregates and dying interpreters are classified by repair:
 the same ABI graph is built again with graph-wide unique '$N' names for
-anonymous aggregates; what disappears then is the name-collision class.
+anonymous aggregates; what disappears then is the name-collision class (this also decides
+identity failures that do not reach an enum).
+Audit extension: declaration forms of cffi's own include tests that the common generator
+never writes (typedef of an anonymous aggregate, pointer typedef as the only name of an
+aggregate, opaque aggregates: declared, behind a typedef, implicit behind a pointer typedef);
+in API graphs what only the included module's C compiler knows (partial struct, 'typedef ...',
+'typedef int...', constants that are not integers; judged against the generator's C source);
+include() into an FFI that already has declarations; lib attributes asked through the includer
+before the declaring lib built them; an API chain in which a lib attribute is reachable only
+through the includes of an included lib.
 """
 import os, sys, random, re
 from vlib import core, modbuild, gen_cdef as GC
@@ -23,7 +32,12 @@ RULE = ("case = one include graph of 2..4 FFIs (chain k<-k+1, diamond, fan) x mo
         "const constants, functions, globals) "
         "whose types are drawn from its own and all visible earlier declarations, plus a 'use' "
         "struct/typedefs/array lengths that name earlier typedefs, aggregates, enums and "
-        "constants; evaluated = one (including FFI, included declaration) pair or one lib "
+        "constants; plus 0..3 of: typedef of an anonymous struct/union, pointer typedef naming an "
+        "anonymous aggregate, opaque aggregate (declared / behind a typedef / implicit), and in API "
+        "graphs 1..4 of: partial struct, 'typedef ...', 'typedef int...', double / char* constant; "
+        "half of the in-line / ABI FFIs get their leading declarations that name nothing included "
+        "before the include() calls; "
+        "evaluated = one (including FFI, included declaration) pair or one lib "
         "attribute reached through an including lib; which side realizes a type first is "
         "randomized; distinct = (mode, declaration text, including FFI); non-trivial = all")
 ASSUMPTIONS = ["the flat FFI (same cdefs, no include) is the reference for layouts; its own layout "
@@ -32,6 +46,8 @@ ASSUMPTIONS = ["the flat FFI (same cdefs, no include) is the reference for layou
                "module's source repeats the type declarations of the included ones (the usual "
                "#include)",
                "enumerator / constant values are those the generator wrote (evaluation is C09/C10)",
+               "sizes / offsets / signedness of API-only partial and '...' declarations are those of "
+               "the generator's C source on this ABI (char pad[n]; int a; -> offset n rounded up to 4)",
                "sanitizer reports while decoding / realizing module tables are recorded as "
                "observations (the statement does not speak about them)"]
 TIMEOUT = 1500
@@ -78,17 +94,95 @@ def make_graph(seed, mode='inline'):
                            bitfields=mode != 'api')
         for j in sorted(vis):            # earlier names are candidates for every type choice
             o = nodes[j].c
-            c.typedefs += [d for d in o.items if d['kind'] == 'typedef']
+            c.typedefs += [d for d in o.items if d['kind'] == 'typedef' and not d.get('noalias')]
             c.enums += [d for d in o.items if d['kind'] == 'enum']
-            c.g.decls += [d['agg'] for d in o.items if d['kind'] == 'agg']
+            c.g.decls += [d['agg'] for d in o.items if d['kind'] == 'agg' and not d.get('opaque')]
         for _ in range(rnd.choice([3, 6, 10])):
             getattr(c, 'add_' + rnd.choice(KINDS))()
+        add_extras(c, rnd, mode)
         nd.uses = []                      # (own declaration name, field, earlier node, its decl)
         nd.lengths = []                   # (own typedef name, constant name, value)
         add_uses(nd, rnd, [(j, nodes[j].c) for j in sorted(vis)])
         nd.text = c.cdef_text()
+        # the flat reference FFI is in-line: it gets no API-only declaration ('...')
+        nd.flat_text = '\n'.join(d['text'] for d in c.items if d['kind'] != 'xapi') + '\n'
         nodes.append(nd)
     return nodes, topo
+
+
+XFIELD_T = ['char', 'short', 'int', 'long', 'double', 'float', 'long long', 'unsigned char',
+            'uint16_t', 'void *', 'int32_t']
+VOIDP = {'k': 'ptr', 'to': {'k': 'prim', 'name': 'void'}}
+
+
+def xbody(rnd):
+    return ' '.join('%s m%d%s;' % (rnd.choice(XFIELD_T), i,
+                                   '[%d]' % rnd.choice([1, 3, 7]) if rnd.random() < 0.25 else '')
+                    for i in range(rnd.choice([1, 2, 3, 4])))
+
+
+def add_extras(c, rnd, mode):
+    """declaration forms the common generator never writes: typedefs of anonymous aggregates
+    ('typedef struct {..} T;' and 'typedef struct {..} *P;'), opaque aggregates (declared
+    'struct S;', opaque behind a typedef, implicit behind a pointer typedef), and for API graphs
+    what only a C compiler can complete: partial structs ('...;'), 'typedef ... T;',
+    'typedef int... T;', and constants that are not integers"""
+    p = c.p
+    for form in rnd.sample(['tdanon', 'tdanonptr', 'opaque', 'opaque-typedef', 'opaque-implicit'],
+                           rnd.choice([0, 1, 2, 3])):
+        nm = c.name('x')
+        kind = rnd.choice(['struct', 'struct', 'union'])
+        if form == 'tdanon':
+            d = {'kind': 'typedef', 'name': nm, 'type': {'k': 'agg', 'name': nm, 'kind': kind},
+                 'text': 'typedef %s { %s } %s;' % (kind, xbody(rnd), nm)}
+            c.typedefs.append(d)
+        elif form == 'tdanonptr':           # the aggregate's only name is this pointer typedef
+            # not offered to the common generator: 'typedef P Q;' of such a P makes the
+            # recompiler fail its own consistency assertion with or without include()
+            d = {'kind': 'typedef', 'name': nm, 'type': VOIDP, 'noalias': True,
+                 'text': 'typedef %s { %s } *%s;' % (kind, xbody(rnd), nm)}
+        elif form == 'opaque':
+            d = {'kind': 'agg', 'name': nm, 'opaque': True, 'text': '%s %s;' % (kind, nm),
+                 'agg': {'kind': kind, 'name': nm, 'fields': [], 'flex': False, 'packed': None}}
+        elif form == 'opaque-typedef':      # usable only behind a pointer: not offered as a type
+            d = {'kind': 'typedef', 'name': nm, 'opaque': True, 'noalias': True,
+                 'type': {'k': 'agg', 'name': nm, 'kind': kind},
+                 'text': 'typedef %s %s_tag %s;' % (kind, nm, nm)}
+        else:
+            d = {'kind': 'typedef', 'name': nm, 'type': VOIDP,
+                 'text': 'typedef %s %s_tag *%s;' % (kind, nm, nm)}
+            c.typedefs.append(d)
+        d['form'] = form
+        c.items.append(d)
+    if mode != 'api':
+        return
+    for form in rnd.sample(['partial', 'unknown', 'unknown-int', 'nonint-const'], rnd.choice([1, 2, 4])):
+        nm = c.name('y')
+        d = {'kind': 'xapi', 'name': nm, 'form': form}
+        n = rnd.randrange(1, 40)
+        if form == 'partial':               # the real layout is only in the C source
+            off = (n + 3) // 4 * 4
+            d.update(text='struct %s { int a; ...; };' % nm, tag='struct ' + nm,
+                     csrc='struct %s { char pad_[%d]; int a; };' % (nm, n),
+                     truth={'size': off + 4, 'offset': off})
+        elif form == 'unknown':
+            d.update(text='typedef ... %s;' % nm, tag=nm,
+                     csrc='typedef struct { char c_[%d]; } %s;' % (n, nm))
+        elif form == 'unknown-int':
+            t, sz = rnd.choice([('short', 2), ('long long', 8), ('unsigned char', 1), ('unsigned', 4)])
+            d.update(text='typedef int... %s;' % nm, tag=nm, csrc='typedef %s %s;' % (t, nm),
+                     truth={'size': sz, 'signed': 'unsigned' not in t})
+        else:
+            nm = d['name'] = nm.upper()
+            if rnd.random() < 0.5:
+                v = rnd.choice([2.5, -0.125, 1e100, 3.0])
+                d.update(text='static const double %s;' % nm, value=v,
+                         csrc='static const double %s = %r;' % (nm, v))
+            else:
+                v = 'k%d' % n
+                d.update(text='static char *const %s;' % nm, value=v,
+                         csrc='static char *const %s = "%s";' % (nm, v))
+        c.items.append(d)
 
 
 def add_uses(nd, rnd, earlier):
@@ -103,7 +197,7 @@ def add_uses(nd, rnd, earlier):
                 t = {'k': 'agg', 'name': d['name'], 'kind': d['agg']['kind']}
             else:
                 t = {'k': d['kind'], 'name': d['name']}
-            how = rnd.choice(['value', 'value', 'ptr', 'array'])
+            how = 'ptr' if d.get('opaque') else rnd.choice(['value', 'value', 'ptr', 'array'])
             ft = {'value': t, 'ptr': {'k': 'ptr', 'to': t},
                   'array': {'k': 'array', 'of': t, 'n': rnd.choice([1, 2, 5])}}[how]
             fields.append(GC.render_type(ft, 'u%d' % i) + ';')
@@ -114,7 +208,7 @@ def add_uses(nd, rnd, earlier):
         c.g.decls.append(agg)
         j, d = rnd.choice(cand)
         nm = p + 'alias'
-        if d['kind'] == 'typedef':
+        if d['kind'] == 'typedef' and not d.get('noalias'):
             t = {'k': 'typedef', 'name': d['name']}
             td = {'kind': 'typedef', 'name': nm, 'type': t, 'text': 'typedef %s %s;' % (d['name'], nm)}
         else:
@@ -122,7 +216,8 @@ def add_uses(nd, rnd, earlier):
             td = {'kind': 'typedef', 'name': nm, 'type': t, 'text': 'typedef %s *%s;' % (tag_of(d), nm)}
         c.typedefs.append(td)
         c.items.append(td)
-        nd.uses.append((nm, None, 'alias' if d['kind'] == 'typedef' else 'ptr', j, tag_of(d)))
+        nd.uses.append((nm, None, 'alias' if d['kind'] == 'typedef' and not d.get('noalias') else 'ptr',
+                        j, tag_of(d)))
     ks = [(d['name'], d['value']) for j, o in earlier for d in o.items
           if d['kind'] == 'const' and d['form'] == 'define']
     ks += [ev for j, o in earlier for d in o.items if d['kind'] == 'enum' for ev in d['values']]
@@ -145,9 +240,16 @@ def c_source(nodes, k):
                 out.append(d['text'])
             elif d['kind'] == 'const':
                 out.append(d['ctext'])
+            elif d['kind'] == 'xapi' and d['form'] != 'nonint-const':
+                out.append(d['csrc'])
     src = nodes[k].c.c_source()
     i = src.index('#include <uchar.h>\n') + len('#include <uchar.h>\n')
-    return src[:i] + '\n'.join(out) + '\n' + src[i:]
+    own = [d['csrc'] for d in nodes[k].c.items if d['kind'] == 'xapi']
+    return src[:i] + '\n'.join(out) + '\n' + src[i:] + '\n'.join(own) + '\n'
+
+
+def deep_first(seed):
+    return bool((seed >> 11) & 1)
 
 
 def modname(seed, k, mode):
@@ -202,9 +304,13 @@ def run(ctx):
     while len(aseeds) < ctx.scale(4, 100):
         sd = rng.getrandbits(40)
         nodes_, topo_ = make_graph(sd, 'api')
+        libattr = lambda j: any(d['kind'] in ('func', 'glob', 'const') for d in nodes_[j].c.items)
+        # fan: both independent libs have attributes; chain: at least 3 long and the first lib
+        # has attributes, so that they are reached only through the includes of an included lib,
+        # asked through the last lib first (nothing cached in the libs in between)
         if topo_ == want[len(aseeds) % len(want)] and (
-                topo_ != 'fan' or all(any(d['kind'] in ('func', 'glob', 'const') for d in
-                                          nodes_[j].c.items) for j in (0, 1))):
+                (topo_ == 'fan' and libattr(0) and libattr(1)) or topo_ == 'diamond' or
+                (topo_ == 'chain' and len(nodes_) >= 3 and libattr(0) and deep_first(sd))):
             aseeds.append(sd)
     ctx.tmp
 
@@ -353,7 +459,43 @@ def reaches_enum(t):
     return False
 
 
-def build_ffis(st, nodes, seed, mode, dirs, repair=False):
+def own_prefix(nodes, k):
+    """number of leading declarations of node k that name nothing of the FFIs it includes"""
+    ps = [nodes[j].c.p for j in nodes[k].vis]
+    ps += [p.upper() for p in ps]
+    n = 0
+    for d in nodes[k].c.items:
+        if any(p in d['text'] for p in ps):
+            break
+        n += 1
+    return n if ps else 0
+
+
+def anon_names_collide(ffi):
+    """does this (in-line) FFI know two different model objects named '$<digits>'?"""
+    from cffi import model
+    seen, todo, done = {}, [tp for tp, q in ffi._parser._declarations.values()
+                            if isinstance(tp, model.BaseTypeByIdentity)], set()
+    while todo:
+        tp = todo.pop()
+        if id(tp) in done:
+            continue
+        done.add(id(tp))
+        name = getattr(tp, 'name', None)
+        if isinstance(tp, (model.StructOrUnion, model.EnumType)) and isinstance(name, str) and \
+                re.match(r'\$\d+$', name):
+            if seen.setdefault((type(tp).__name__ == 'EnumType', name), tp) is not tp:
+                return True
+        for attr in ('totype', 'item', 'result'):
+            t = getattr(tp, attr, None)
+            if t is not None:
+                todo.append(t)
+        todo += list(getattr(tp, 'args', None) or ())
+        todo += [t for t in (getattr(tp, 'fldtypes', None) or ())]
+    return False
+
+
+def build_ffis(st, nodes, seed, mode, dirs, repair=False, stat=None):
     """-> (ffis, libs).  repair (in-line / ABI): every parser numbers its anonymous aggregates
     ($1, $2, ..) from a different base, so that these names are unique over the whole graph"""
     import importlib
@@ -370,11 +512,16 @@ def build_ffis(st, nodes, seed, mode, dirs, repair=False):
     ffis = []
     for k, nd in enumerate(nodes):
         f = FFI()
-        for j in nd.includes:
-            f.include(ffis[j])
         if repair:
             f._parser._anonymous_counter = 1000 * (k + 1)
-        f.cdef(nd.text)
+        pre = own_prefix(nodes, k) if (seed >> (3 + k)) & 1 else 0
+        if pre:                            # history: include() into an FFI that has declarations
+            f.cdef('\n'.join(d['text'] for d in nd.c.items[:pre]) + '\n')
+            if stat and not repair:
+                stat('include_after_own_cdef_%s' % mode)
+        for j in nd.includes:
+            f.include(ffis[j])
+        f.cdef('\n'.join(d['text'] for d in nd.c.items[pre:]) + '\n')
         ffis.append(f)
     if mode == 'abi':
         mode += 'r' if repair else ''
@@ -418,27 +565,42 @@ def run_graph(st, rep, seed, mode, dirs, repair=False):
     where = ' :: graph seed %d, mode %s, %s of %d' % (seed, mode, topo, len(nodes))
     os.write(2, b'C34-CRUMB graph %d\n' % seed)
     repaired = []
+    inline_parsers = []
 
     def bad(mech, msg):
         rep.bad('%s:%s' % (mech, mode), msg + where, seed)
 
-    def agg_bad(what, tag, k, msg):
+    def agg_bad(what, tag, k, msg, fixed=None):
         """wrong / unusable aggregate; classified by repair: if the same ABI graph built with
         graph-wide unique names for anonymous aggregates shows `tag` through FFI k as the flat
-        FFI does, the cause is the collision of these names between the FFIs of the graph"""
+        FFI does (or satisfies `fixed`, a predicate on the repaired FFIs), the cause is the
+        collision of these names between the FFIs of the graph"""
+        if mode == 'api' and not repair:
+            # no repaired build exists for compiled modules; the recorded cause is decided by
+            # its precondition instead: the parser of the including FFI (rebuilt in-line from
+            # the same cdefs) holds two different anonymous aggregates under one '$N' name
+            try:
+                if not inline_parsers:
+                    inline_parsers.append(build_ffis(st, nodes, seed, 'inline', dirs)[0])
+                if anon_names_collide(inline_parsers[0][k]):
+                    what = 'aggregate-wrong-or-unusable:anonymous-member-names-collide'
+                    rep.stat('api_mismatches_in_ffis_with_colliding_anonymous_names')
+            except Exception:
+                pass
         if mode == 'abi' and not repair:
             try:
                 if not repaired:
                     repaired.append(build_ffis(st, nodes, seed, mode, dirs, True)[0])
                 fr = repaired[0][k]
-                if shape(fr, fr.typeof(tag)) == shape(flat, flat.typeof(tag)):
+                if fixed(repaired[0]) if fixed else (shape(fr, fr.typeof(tag)) ==
+                                                     shape(flat, flat.typeof(tag))):
                     what = 'aggregate-wrong-or-unusable:anonymous-member-names-collide'
                     rep.stat('mismatches_gone_with_unique_anonymous_names')
             except Exception:
                 pass
         bad(what, msg)
     try:
-        ffis, libs = build_ffis(st, nodes, seed, mode, dirs, repair)
+        ffis, libs = build_ffis(st, nodes, seed, mode, dirs, repair, rep.stat)
     except IncludeCopied as e:
         return bad('parser-include-does-not-share-model-object', 'Parser.include postcondition: %s' % e)
     except Exception as e:
@@ -446,7 +608,7 @@ def run_graph(st, rep, seed, mode, dirs, repair=False):
         return bad('build-raised:' + type(e).__name__, traceback.format_exc()[-700:])
     flat = FFI()
     for nd in nodes:
-        flat.cdef(nd.text)
+        flat.cdef(nd.flat_text)
     rep.stat('graphs_%s' % mode)
     rep.stat('topology_%s' % topo)
 
@@ -458,7 +620,11 @@ def run_graph(st, rep, seed, mode, dirs, repair=False):
             agg_bad('%s-layout-differs-from-flat' % kname, tag, k,
                     '%s %s FFI %d: %r, flat FFI without include: %r' % (tag, through, k, sk, sf))
 
-    for k, nd in enumerate(nodes):
+    # deepest includer first: what it reaches through the includes of what it includes has not
+    # been built and cached by the FFIs / libs in between
+    if deep_first(seed):
+        rep.stat('graphs_deepest_includer_asked_first_%s' % mode)
+    for k, nd in sorted(enumerate(nodes), reverse=deep_first(seed)):
         fk = ffis[k]
         for j in sorted(nd.vis, reverse=rnd.random() < 0.5):
             fj = ffis[j]
@@ -467,6 +633,8 @@ def run_graph(st, rep, seed, mode, dirs, repair=False):
                 tag = tag_of(d)
                 kname = d['agg']['kind'] if kind == 'agg' else kind
                 try:
+                    if j not in nd.includes:
+                        rep.stat('reached_only_through_includes_of_included_%s_%s' % (kind, mode))
                     if kind in ('typedef', 'agg', 'enum'):
                         rep.case((mode, d['text'], k), sample={'mode': mode, 'decl': d['text'][:200],
                                                                'including': nd.text[:300]})
@@ -478,12 +646,18 @@ def run_graph(st, rep, seed, mode, dirs, repair=False):
                             tj = fj.typeof(tag)
                             tk = fk.typeof(tag)
                         rep.stat('identity_%s_%s' % (kname, mode))
+                        if d.get('form'):
+                            rep.stat('identity_form_%s_%s' % (d['form'], mode))
                         if tk is not tj:
-                            bad('not-shared:%s' % ('reaches-enum' if reaches_enum(tj) else kname),
-                                '%r: FFI %d (includes %r) gives a different ctype object than the '
-                                'declaring FFI %d: %r (id %#x) vs %r (id %#x), equal=%r; %s' %
-                                (d['text'][:200], k, nd.includes, j, tk, id(tk), tj, id(tj),
-                                 tk == tj, consequence(fk, fj, tag)))
+                            msg = ('%r: FFI %d (includes %r) gives a different ctype object than the '
+                                   'declaring FFI %d: %r (id %#x) vs %r (id %#x), equal=%r; %s' %
+                                   (d['text'][:200], k, nd.includes, j, tk, id(tk), tj, id(tj),
+                                    tk == tj, consequence(fk, fj, tag)))
+                            if reaches_enum(tj):
+                                bad('not-shared:reaches-enum', msg)
+                            else:           # by repair: is it the '$N' collision of the graph?
+                                agg_bad('not-shared:%s' % kname, tag, k, msg,
+                                        lambda fr: fr[k].typeof(tag) is fr[j].typeof(tag))
                         elif kind != 'typedef':
                             rep.stat('identity_derived_pointer_%s' % mode)
                             if fk.typeof(tag + ' *') is not fj.typeof(tag + ' *'):
@@ -498,6 +672,8 @@ def run_graph(st, rep, seed, mode, dirs, repair=False):
                             check_const(rep, bad, mode, fk, libs[k], en, v, 'enumerator', (k, en))
                     if mode == 'api' and kind in ('func', 'glob'):
                         check_lib(rep, bad, rnd, nodes[j].c, d, fk, libs[k], fj, libs[j], k)
+                    if kind == 'xapi':
+                        check_xapi(rep, bad, rnd, d, fk, libs[k], fj, libs[j], k)
                 except Exception as e:
                     agg_bad('%s-through-includer-raised:%s' % (kname, type(e).__name__), tag, k,
                             '%r of FFI %d asked through FFI %d: %s' % (d['text'][:200], j, k, e))
@@ -506,17 +682,21 @@ def run_graph(st, rep, seed, mode, dirs, repair=False):
             try:
                 rep.case((mode, 'use', nd.text, own, field))
                 rep.stat('uses_of_earlier_names_%s' % mode)
-                t = fk.typeof(own if field is None else 'struct ' + own)
-                if field is not None:
-                    t = dict(t.fields)[field].type
-                if how in ('ptr', 'array'):
-                    t = t.item
-                want = ffis[j].typeof(tag)
+                def used(fs, own=own, field=field, how=how, j=j, tag=tag):
+                    t = fs[k].typeof(own if field is None else 'struct ' + own)
+                    if field is not None:
+                        t = dict(t.fields)[field].type
+                    return (t.item if how in ('ptr', 'array') else t), fs[j].typeof(tag)
+                t, want = used(ffis)
                 if t is not want:
-                    bad('not-shared:%s' % ('reaches-enum' if reaches_enum(want) else 'use-in-includer'),
-                        '%s%s in FFI %d is declared with %s of FFI %d but its ctype %r (id %#x) is '
-                        'not that FFI\'s %r (id %#x)' % (own, '.' + field if field else '', k, tag, j,
-                                                        t, id(t), want, id(want)))
+                    msg = ('%s%s in FFI %d is declared with %s of FFI %d but its ctype %r (id %#x) is '
+                           'not that FFI\'s %r (id %#x)' % (own, '.' + field if field else '', k, tag, j,
+                                                            t, id(t), want, id(want)))
+                    if reaches_enum(want):
+                        bad('not-shared:reaches-enum', msg)
+                    else:
+                        agg_bad('not-shared:use-in-includer', tag, k, msg,
+                                lambda fr: used(fr)[0] is used(fr)[1])
             except Exception as e:
                 agg_bad('use-raised:' + type(e).__name__, own if field is None else 'struct ' + own, k,
                         '%s.%s of FFI %d: %s' % (own, field, k, e))
@@ -587,7 +767,11 @@ def check_lib(rep, bad, rnd, c, d, fk, libk, fj, libj, k):
     rep.case(('api', 'lib', k, d['text']))
     if d['kind'] == 'func':
         rep.stat('functions_through_includer')
-        f1, f2 = getattr(libj, name), getattr(libk, name)
+        if rnd.random() < 0.5:           # asked through the includer before its own lib built it
+            rep.stat('lib_attribute_first_asked_through_includer')
+            f2, f1 = getattr(libk, name), getattr(libj, name)
+        else:
+            f1, f2 = getattr(libj, name), getattr(libk, name)
         if f1 is f2:
             rep.stat('functions_same_object')
         a1 = int(fj.cast('uintptr_t', fj.addressof(libj, name)))
@@ -606,7 +790,11 @@ def check_lib(rep, bad, rnd, c, d, fk, libk, fj, libj, k):
                     (name, tuple(args), r1, r2, k))
         return
     rep.stat('globals_through_includer')
-    g1, g2 = getattr(libj, name), getattr(libk, name)
+    if rnd.random() < 0.5:
+        rep.stat('lib_attribute_first_asked_through_includer')
+        g2, g1 = getattr(libk, name), getattr(libj, name)
+    else:
+        g1, g2 = getattr(libj, name), getattr(libk, name)
     p1 = int(fj.cast('uintptr_t', fj.addressof(libj, name)))
     p2 = int(fk.cast('uintptr_t', fk.addressof(libk, name)))
     if p1 != p2:
@@ -633,3 +821,40 @@ def check_lib(rep, bad, rnd, c, d, fk, libk, fj, libj, k):
             bad('global-write-not-seen-through-includer', '%s = %r in its lib, lib %d reads %r' %
                 (name, g1, k, getattr(libk, name)))
         rep.stat('global_writes_both_ways')
+
+
+def check_xapi(rep, bad, rnd, d, fk, libk, fj, libj, k):
+    """API mode only: what the C compiler of the included module completed (partial struct,
+    'typedef ... T', 'typedef int... T') or computed (non-integer constant), asked through the
+    including ffi / lib; the expected layouts and values are those of the generator's C source"""
+    form, name = d['form'], d['name']
+    rep.case(('api', 'xapi', k, d['text']))
+    rep.stat('api_only_%s_through_includer' % form)
+    if form == 'nonint-const':
+        first = rnd.random() < 0.5
+        vals = [getattr(l, name) for l in ((libk, libj) if first else (libj, libk))]
+        vk, vj = vals if first else vals[::-1]
+        if isinstance(d['value'], str):
+            vk, vj = fk.string(vk).decode(), fj.string(vj).decode()
+        if vk != d['value'] or vj != d['value']:
+            bad('included-constant-value:nonint', '%s: the C source says %r, its lib gives %r, '
+                'lib %d gives %r' % (d['text'], d['value'], vj, k, vk))
+        return
+    tag = d['tag']
+    if rnd.random() < 0.5:
+        tk, tj = fk.typeof(tag), fj.typeof(tag)
+    else:
+        tj, tk = fj.typeof(tag), fk.typeof(tag)
+    if tk is not tj:
+        bad('not-shared:' + form, '%r: FFI %d gives %r (id %#x), the declaring FFI %r (id %#x)' %
+            (d['text'], k, tk, id(tk), tj, id(tj)))
+    truth = d.get('truth')
+    if truth:
+        got = {'size': fk.sizeof(tk)}
+        if 'offset' in truth:
+            got['offset'] = fk.offsetof(tk, 'a')
+        if 'signed' in truth:
+            got['signed'] = int(fk.cast(tk, -1)) < 0
+        if got != truth:
+            bad('layout-not-from-included-module:' + form, '%r with C source %r seen through FFI '
+                '%d: %r, the C compiler of the included module: %r' % (d['text'], d['csrc'], k, got, truth))
